@@ -83,7 +83,7 @@ PROPS = {
     'C11': {
         'level': 'proof',
         'verus': ['U-CONTAINS'],
-        'kani': ['contains_type_path_catalogue', 'contains_type_path_n1'],
+        'kani': ['contains_type_path_catalogue', 'contains_type_path_catalogue2', 'contains_type_path_n1'],
         'trusted_base': ['Verus 0.2026.09.13, Z3, rustc 1.98.1'],
         'assumptions': [
             'ASSUMED std contracts: Vec<T> == [U] (length + pairwise), String == String (contents), slice.iter().any(f) (exists) -- vx/prelude/std_any_eq.rs',
